@@ -1528,9 +1528,15 @@ def run(ctx):
         'writeInitParams() is called by the history as the poll thread would',
         'a save is claimed to be due only for saveParameters() and changes of auto-persistent parameters with empty writeDict',
         'values, limits, histories and damages outside the catalogues are not covered (e.g. deeply nested JSON, files > 1 kB)')
+    if not only or 'conc' in only:
+        from vf.harness import c17conc
+        c17conc.run_conc(ctx)       # two threads saving at the same time (schedx + memfs)
 
 
 def replay(case):
+    if case.get('kind') == 'conc':
+        from vf.harness import c17conc
+        return c17conc.replay_conc(case)
     env()
     kinds()
     part = core.Part()
